@@ -35,6 +35,8 @@ type C11Case struct {
 	Garbage string   `json:"garbage,omitempty"` // a body that is not a charging data request at all
 	NMUU    int      `json:"nMuu,omitempty"`    // extra multipleUnitUsage entries (0-2)
 	NCont   int      `json:"nCont,omitempty"`   // extra used-unit containers in the first entry (0-2)
+	Pad     int      `json:"pad,omitempty"`     // insignificant white space inside the JSON document (octets)
+	NoNotif bool     `json:"noNotif,omitempty"` // the session addressed by update/release/recharge was created without the optional notifyUri
 }
 
 var dropPaths = []string{
@@ -59,6 +61,10 @@ func genC11(t *rapid.T) C11Case {
 	c.Reg = rapid.IntRange(0, 4).Draw(t, "reg") == 0
 	c.Q = rapid.SampledFrom([]string{"ONLINE_CHARGING", "ONLINE_CHARGING", "OFFLINE_CHARGING", "QUOTA_MANAGEMENT_SUSPENDED", "", "BOGUS"}).Draw(t, "q")
 	c.Trig = rapid.SampledFrom([]string{"", "", "FINAL", "VOLUME_LIMIT", "MANAGEMENT_INTERVENTION", "BOGUS"}).Draw(t, "trig")
+	c.NoNotif = rapid.IntRange(0, 3).Draw(t, "noNotif") == 0
+	if rapid.IntRange(0, 7).Draw(t, "padded") == 0 {
+		c.Pad = rapid.SampledFrom([]int{1000, 65536, 70000, 300000}).Draw(t, "pad")
+	}
 	if c.Route == "recharge" {
 		c.Rech = rapid.SampledFrom([]string{"ok", "nounderscore", "many", "nonnumeric", "empty-rg", "unknown-ue", "negative", "only-underscore"}).Draw(t, "rech")
 		return c
@@ -207,6 +213,10 @@ func (c C11Case) body(supi string, chargingID int32, lsn int32) []byte {
 		setPath(m, p, false)
 	}
 	b, _ := json.Marshal(m)
+	if c.Pad > 0 && len(b) > 2 {
+		// white space between tokens is insignificant (RFC 8259): the same document, only longer
+		b = append(append(append([]byte{}, b[0]), []byte(strings.Repeat(" \n", c.Pad/2))...), b[1:]...)
+	}
 	return b
 }
 
@@ -228,6 +238,12 @@ func (c C11Case) classify(v *h.Verdict) {
 	}
 	if c.Garbage != "" {
 		v.Label("not-a-charging-data-request")
+	}
+	if c.Pad > 65000 && c.Garbage == "" && c.Route != "recharge" {
+		v.NT("body>64KiB")
+	}
+	if c.NoNotif && c.Route == "recharge" && c.Rech == "ok" {
+		v.NT("recharge-without-registered-notify-uri")
 	}
 	v.Label("route:" + c.Route)
 }
@@ -251,6 +267,9 @@ func judgeC11(c C11Case) *h.Verdict {
 	// a normal session first, for the routes that address one
 	if c.Route == "update" || c.Route == "release" || c.Route == "recharge" {
 		pre := C11Case{Route: "create", Mcc: "208", Mnc: "93", Q: "ONLINE_CHARGING"}
+		if c.NoNotif {
+			pre.Drop = []string{"notifyUri"}
+		}
 		code, _, hd := doHTTP("POST", prefix+"/chargingdata", pre.body(valid, cid, 1), nil)
 		if code != 201 {
 			return v.Failf("HARNESS-setup", "setup create answered %d", code)
